@@ -14,7 +14,7 @@ fn gen_template(src: &mut Src) -> String {
     let n = src.range(0, 8);
     let mut t = String::new();
     for _ in 0..n {
-        match src.weighted(&[4, 4, 2, 3, 2, 1, 1, 1, 1, 1]) {
+        match src.weighted(&[4, 4, 2, 3, 2, 1, 2, 1, 1, 1, 1]) {
             0 => t.push(*src.pick(&['a', 'é', '😀', ' ', '-', 'x', '}', '{'])),
             1 if src.chance(1, 12) => {
                 // numbers around the 65535 cap
@@ -40,10 +40,19 @@ fn gen_template(src: &mut Src) -> String {
                 t.push_str("${");
                 t.push_str(*src.pick(TNAMES));
             }
-            6 => t.push_str("$x"),
+            6 => {
+                // `$` in front of something that is not an ASCII digit, `$` or `{` is a literal dollar sign
+                t.push('$');
+                t.push(*src.pick(&['x', '\u{662}', '\u{FF12}', '\u{B2}', '\u{BD}', '\u{2167}', '\u{1D7D9}', '}', '-', ' ', 'é', '😀', '\u{0}', '\\', 'n']));
+            }
+            10 => {
+                // digits followed by non-ASCII digits; names that are not group names
+                t.push_str(*src.pick(&["$1\u{662}", "$\u{FF11}1", "${1}", "${ n1}", "${n1 }", "${N1}", "${n1\u{662}}", "${\u{662}}", "$1$", "${n1}}"]));
+            }
             7 => t.push_str("$$$"),
             8 => t.push_str("$0"),
-            _ => t.push_str("${}"),
+            9 => t.push_str("${}"),
+            _ => unreachable!(),
         }
     }
     t
